@@ -63,4 +63,74 @@ theorem resize_completes (hst : 1 ≤ stride) (hr : Reachable n nthreads stride 
     ∃ r s', BusyRun s r s' ∧ run s r = some s' ∧ Reachable n nthreads stride s' ∧ allIdle s' ∧
       s'.sizeCtl = .idle (threshold s'.n) ∧ s'.nextTable = false := progress_possible hst hr
 
+/-- **no thread is ever admitted to a resize while holding the tables of another generation**
+(finding F6): with the comparison of the generation stamps in `help_transfer`'s refusal test
+(`C10Arith.help_refuses_other_generation`; `Reachable` starts from `init … true`) the counter of
+stale joins stays 0 in every interleaving. `Lemmas/ResizeExamples.staleJoin` is a schedule that
+reaches `staleJoins = 1` from `init 2 2 1 false`, i.e. without the comparison. -/
+theorem no_stale_join (hr : Reachable n nthreads stride s) : s.staleJoins = 0 :=
+  Flurry.Proto.Resize.no_stale_join hr
+
+/-- state form: a thread whose join CAS would succeed now (`casJoin sc` with `sc` the current word)
+holds the tables of the current generation, and the word carries the current stamp and counts at
+least one participant -/
+theorem joiner_holds_current_generation (hr : Reachable n nthreads stride s) {l : Local}
+    (hl : l ∈ s.threads) {sc : SC} (hpc : l.pc = .casJoin sc) (hsc : s.sizeCtl = sc) :
+    l.heldGen = s.gen ∧ ∃ k, sc = .resizing s.gen k ∧ 2 ≤ k := join_ready_current hr hl hpc hsc
+
+/-- step form: a `casJoin` step that changes the word is taken by a thread that holds the current
+generation, and it makes exactly that thread a participant -/
+theorem join_admits_current_generation (hr : Reachable n nthreads stride s) {t c : Nat} {s' : State}
+    {l : Local} {sc : SC} (hl : s.threads[t]? = some l) (hpc : l.pc = .casJoin sc)
+    (hs : step s t c = some s') (hne : s'.sizeCtl ≠ s.sizeCtl) :
+    l.heldGen = s.gen ∧ ∃ k, sc = .resizing s.gen k ∧ 2 ≤ k ∧ s'.sizeCtl = .resizing s.gen (k + 1) ∧
+      ∃ l', s'.threads = s.threads.set t l' ∧ participating l' = true ∧ l'.heldGen = s'.gen :=
+  join_step_current hr hl hpc hs hne
+
+/-! ### the tie between the generated refusal test and the model's `helpRefuses true` -/
+section Tie
+open Flurry.Gen
+
+private theorem ofNat_inj_small {a b : Nat} (ha : a < 2 ^ 64) (hb : b < 2 ^ 64) :
+    (BitVec.ofNat 64 a = BitVec.ofNat 64 b) ↔ a = b := by
+  constructor
+  · intro h
+    have := congrArg BitVec.toNat h
+    simp only [BitVec.toNat_ofNat] at this
+    rw [Nat.mod_eq_of_lt ha, Nat.mod_eq_of_lt hb] at this
+    exact this
+  · intro h; rw [h]
+
+/-- the refusal test of `help_transfer` generated from the source is the one the protocol model
+uses (`helpRefuses true`): on the word `rs(2^j) + c` of generation `j` with `c ≤ MAX_RESIZERS`
+participants (+1), a helper holding the table of generation `k` is refused iff the generations
+differ, or the word says "finisher elected" or "full". -/
+theorem help_refusal_matches_model (j k : Fin 31) (c : Nat) (hc : c ≤ 2 ^ 32 - 1) :
+    BV.joinRefusedHelp (BV.rsOf (len j) + BitVec.ofNat 64 c) (BV.rsOf (len k)) =
+      helpRefuses true (2 ^ 32 - 1) j.val c k.val := by
+  have hcn : (BitVec.ofNat 64 c).toNat = c := by
+    simp only [BitVec.toNat_ofNat]; exact Nat.mod_eq_of_lt (by omega)
+  by_cases hjk : j = k
+  · subst hjk
+    have hroom := stamp_room j (BitVec.ofNat 64 c) (by rw [hcn, max_resizers_val]; exact hc)
+    have hs : BitVec.sshiftRight (BV.rsOf (len j) + BitVec.ofNat 64 c) 32 = BitVec.sshiftRight (BV.rsOf (len j)) 32 := by
+      rw [sshift_eq_iff _ _ hroom.1 (stamp_negative j)]; exact hroom.2.1
+    rw [help_same_generation_iff j _ hs]
+    have hmax : BV.MAX_RESIZERS = BitVec.ofNat 64 (2 ^ 32 - 1) := by decide
+    have h1 : (1#64) = BitVec.ofNat 64 1 := rfl
+    simp only [helpRefuses, bne_self_eq_false, Bool.and_false, Bool.false_or, beq_self_eq_true, Bool.true_and]
+    rw [hmax, h1]
+    have e1 : (BV.rsOf (len j) + BitVec.ofNat 64 c == BV.rsOf (len j) + BitVec.ofNat 64 (2 ^ 32 - 1)) = (c == 2 ^ 32 - 1) := by
+      rw [Bool.eq_iff_iff]; simp only [beq_iff_eq]
+      rw [BitVec.add_right_inj, ofNat_inj_small (by omega) (by omega)]
+    have e2 : (BV.rsOf (len j) + BitVec.ofNat 64 c == BV.rsOf (len j) + BitVec.ofNat 64 1) = (c == 1) := by
+      rw [Bool.eq_iff_iff]; simp only [beq_iff_eq]
+      rw [BitVec.add_right_inj, ofNat_inj_small (by omega) (by omega)]
+    rw [e1, e2]
+  · have hne : j.val ≠ k.val := fun e => hjk (Fin.ext e)
+    rw [help_refuses_other_generation j k hjk _ (by rw [hcn, max_resizers_val]; exact hc)]
+    simp [helpRefuses, hne]
+
+end Tie
+
 end Flurry.C10
